@@ -15,7 +15,13 @@
 //          trk = lifetime-instrumented type) and on aligned_allocator<T>::allocate directly.
 //
 // The driver decides nothing: it reports pointers, byte counts, contents.
+#include <algorithm>
+#include <climits>
 #include <cmath>
+#include <condition_variable>
+#include <functional>
+#include <mutex>
+#include <thread>
 #include <cstdint>
 #include <cstring>
 #include <initializer_list>
@@ -91,20 +97,116 @@ struct HeapWorld : IWorld
     unsigned char *p;
     uint64_t size;
     uint64_t tag;
+    int viaAlloc; // element size if the block came from aligned_allocator<Elem<es>>::allocate, else 0
   };
+
+  // calls may be made on the driver's thread (t = 0), on one worker thread that lives as long as the world
+  // (t = 1) or on a thread created for this one call (t = 2); always one call at a time
+  struct Worker
+  {
+    std::thread th;
+    std::mutex m;
+    std::condition_variable cv;
+    std::function<void()> job;
+    bool hasJob, done, quit;
+    Worker() : hasJob(false), done(false), quit(false) {}
+    void loop()
+    {
+      std::unique_lock<std::mutex> l(m);
+      for (;;) {
+        cv.wait(l, [&] { return hasJob || quit; });
+        if (quit)
+          return;
+        job();
+        hasJob = false;
+        done   = true;
+        cv.notify_all();
+      }
+    }
+    void run(const std::function<void()> &f)
+    {
+      if (!th.joinable())
+        th = std::thread([this] { loop(); });
+      std::unique_lock<std::mutex> l(m);
+      job    = f;
+      hasJob = true;
+      done   = false;
+      cv.notify_all();
+      cv.wait(l, [&] { return done; });
+    }
+    ~Worker()
+    {
+      if (th.joinable()) {
+        {
+          std::unique_lock<std::mutex> l(m);
+          quit = true;
+          cv.notify_all();
+        }
+        th.join();
+      }
+    }
+  };
+  Worker worker;
+  void runOn(int t, const std::function<void()> &f)
+  {
+    if (t == 1)
+      worker.run(f);
+    else if (t == 2) {
+      std::thread th(f);
+      th.join();
+    } else
+      f();
+  }
   std::vector<Slot> slots; // index = handle (1-based)
   uint64_t tagCounter;
 
   HeapWorld() : tagCounter(0)
   {
-    Slot e = {false, nullptr, 0, 0};
+    Slot e = {false, nullptr, 0, 0, 0};
     slots.assign(65, e);
   }
   ~HeapWorld() override
   {
     for (size_t h = 0; h < slots.size(); ++h)
       if (slots[h].used)
-        mem::alignedFree(slots[h].p);
+        release(slots[h]);
+  }
+
+  template <int N>
+  static void *viaAllocator(uint64_t size, std::string &thrown)
+  {
+    aligned_allocator<Elem<N>> al;
+    try {
+      return al.allocate((size_t)(size / N));
+    } catch (const std::length_error &) {
+      thrown = "length_error";
+    } catch (const std::bad_alloc &) {
+      thrown = "bad_alloc";
+    } catch (...) {
+      thrown = "other";
+    }
+    return nullptr;
+  }
+  static void *callAllocator(uint64_t size, int es, std::string &thrown)
+  {
+    switch (es) {
+    case 1: return viaAllocator<1>(size, thrown);
+    case 3: return viaAllocator<3>(size, thrown);
+    case 4: return viaAllocator<4>(size, thrown);
+    case 12: return viaAllocator<12>(size, thrown);
+    default: return viaAllocator<64>(size, thrown);
+    }
+  }
+  static void release(const Slot &s)
+  {
+    switch (s.viaAlloc) {
+    case 0: mem::alignedFree(s.p); break;
+    case 1: aligned_allocator<Elem<1>>().deallocate((Elem<1> *)s.p, (size_t)(s.size / 1)); break;
+    case 3: aligned_allocator<Elem<3>>().deallocate((Elem<3> *)s.p, (size_t)(s.size / 3)); break;
+    case 4: aligned_allocator<Elem<4>>().deallocate((Elem<4> *)s.p, (size_t)(s.size / 4)); break;
+    case 12: aligned_allocator<Elem<12>>().deallocate((Elem<12> *)s.p, (size_t)(s.size / 12)); break;
+    default: aligned_allocator<Elem<64>>().deallocate((Elem<64> *)s.p, (size_t)(s.size / 64)); break;
+    }
   }
 
   // visit every byte offset the client owns and uses (all of them, or both edges of a huge block)
@@ -140,6 +242,8 @@ struct HeapWorld : IWorld
   static void *callAlloc(uint64_t size, size_t align, int es)
   {
     // es selects the typed overload alignedMalloc<T>(nElements, align) when size is a multiple of sizeof(T)
+    if (es == 3 && size % 3 == 0)
+      return mem::alignedMalloc<Elem<3>>((size_t)(size / 3), align);
     if (es == 4 && size % 4 == 0)
       return mem::alignedMalloc<Elem<4>>((size_t)(size / 4), align);
     if (es == 12 && size % 12 == 0)
@@ -186,11 +290,16 @@ struct HeapWorld : IWorld
       uint64_t size = fromLimbs(arg["size"]);
       size_t align  = (size_t)arg["align"].num();
       int es        = arg.has("es") ? (int)arg["es"].num() : 0;
-      void *p       = callAlloc(size, align, es);
+      bool via      = arg.has("via") && arg["via"].str() == "alloc" && es > 0 && size % (uint64_t)es == 0;
+      int t         = arg.has("t") ? (int)arg["t"].num() : 0;
+      void *p       = nullptr;
+      std::string thrown;
+      runOn(t, [&] { p = via ? callAllocator(size, es, thrown) : callAlloc(size, align, es); });
       o.set("skipped", false);
       o.set("p", toLimbs((uint64_t)(uintptr_t)p));
+      o.set("thrown", thrown);
       if (p) {
-        Slot s = {true, (unsigned char *)p, size, ++tagCounter};
+        Slot s = {true, (unsigned char *)p, size, ++tagCounter, via ? es : 0};
         fill(s.p, s.size, s.tag);
         slots[h] = s;
       }
@@ -202,7 +311,11 @@ struct HeapWorld : IWorld
       }
       o.set("skipped", false);
       o.set("p", toLimbs((uint64_t)(uintptr_t)slots[h].p));
-      mem::alignedFree(slots[h].p);
+      {
+        int t        = arg.has("t") ? (int)arg["t"].num() : 0;
+        const Slot c = slots[h];
+        runOn(t, [&] { release(c); });
+      }
       slots[h].used = false;
       slots[h].p    = nullptr;
     } else if (a == "Check") {
@@ -223,6 +336,39 @@ struct HeapWorld : IWorld
           bl.push(pr);
         }
       o.set("blocks", bl);
+    } else if (a == "Burst") {
+      // n requests in a row, all held at once, each filled with its own pattern, all checked, all freed
+      size_t n      = (size_t)arg["n"].num();
+      uint64_t size = fromLimbs(arg["size"]);
+      size_t align  = (size_t)arg["align"].num();
+      int t         = arg.has("t") ? (int)arg["t"].num() : 0;
+      std::vector<std::pair<uintptr_t, uint64_t>> got; // address, tag
+      long long nulls = 0, bad = 0;
+      runOn(t, [&] {
+        for (size_t k = 0; k < n; ++k) {
+          void *p = mem::alignedMalloc((size_t)size, align);
+          if (!p) {
+            ++nulls;
+            continue;
+          }
+          uint64_t tag = ++tagCounter;
+          fill((unsigned char *)p, size, tag);
+          got.push_back(std::make_pair((uintptr_t)p, tag));
+        }
+      });
+      for (size_t k = 0; k < got.size(); ++k)
+        bad += countBad((const unsigned char *)got[k].first, size, got[k].second);
+      runOn(t, [&] {
+        for (size_t k = 0; k < got.size(); ++k)
+          mem::alignedFree((void *)got[k].first);
+      });
+      std::sort(got.begin(), got.end());
+      Json ps = Json::array();
+      for (size_t k = 0; k < got.size(); ++k)
+        ps.push(toLimbs((uint64_t)got[k].first));
+      o.set("ps", ps);
+      o.set("nulls", nulls);
+      o.set("bad", bad);
     } else if (a == "LeakCheck") {
       long long leaked = -1;
 #if HAVE_LSAN
@@ -269,6 +415,18 @@ struct S64
   int w[16];
   bool operator==(const S64 &o) const { return memcmp(w, o.w, sizeof w) == 0; }
 };
+struct B3 // narrower than a word, not a power of two: SIZE_MAX is a multiple of 3, so max_size() * sizeof(T) = SIZE_MAX exactly
+{
+  unsigned char b[3];
+  bool operator==(const B3 &o) const { return memcmp(b, o.b, 3) == 0; }
+};
+struct alignas(32) A32 // over-aligned (> 16) element
+{
+  int w[8];
+  bool operator==(const A32 &o) const { return memcmp(w, o.w, sizeof w) == 0; }
+};
+static_assert(sizeof(B3) == 3, "B3 must be 3 bytes");
+static_assert(sizeof(A32) == 32 && alignof(A32) == 32, "A32 must be 32 bytes, 32-aligned");
 static_assert(sizeof(S12) == 12, "S12 must be 12 bytes");
 static_assert(sizeof(S64) == 64, "S64 must be 64 bytes");
 
@@ -307,6 +465,21 @@ struct Tracked
     static std::set<const void *> s;
     return s;
   }
+  // the fuse: when armed with k > 0 the k-th copy / move construction from now on throws (and disarms)
+  static long &fuse()
+  {
+    static long f = 0;
+    return f;
+  }
+  struct Blown : std::runtime_error
+  {
+    Blown() : std::runtime_error("copy fuse blown") {}
+  };
+  static void burn()
+  {
+    if (fuse() > 0 && --fuse() == 0)
+      throw Blown();
+  }
   int value;
   void reg()
   {
@@ -331,11 +504,13 @@ struct Tracked
   }
   Tracked(const Tracked &o) : value(o.read())
   {
+    burn(); // before the object exists: a throwing copy constructs nothing
     reg();
     ++c().copies;
   }
   Tracked(Tracked &&o) : value(o.read())
   {
+    burn();
     reg();
     ++c().moves;
   }
@@ -365,24 +540,98 @@ struct Tracked
 // disagree (or that is not what a copy of a client value can be) decodes to a value <= -1000.
 template <typename T>
 struct Enc;
+// model values 0..9 stand for the values of the element type that generic code tends to mishandle
 template <>
 struct Enc<char>
 {
-  static char to(long long x) { return (char)x; }
-  static long long from(const char &c) { return (long long)c; }
+  // NUL, a letter, control characters, the ends of the signed range, bytes >= 0x80
+  static const unsigned char *tab()
+  {
+    static const unsigned char t[10] = {0x00, 0x01, 'A', '\n', 0x20, 0x7E, 0x7F, 0xFF, 0x80, 0xC3};
+    return t;
+  }
+  static char to(long long x) { return (char)tab()[x]; }
+  static long long from(const char &c)
+  {
+    for (int k = 0; k < 10; ++k)
+      if ((unsigned char)c == tab()[k])
+        return k;
+    return -1000 - (long long)(unsigned char)c;
+  }
 };
 template <>
 struct Enc<int>
 {
-  static int to(long long x) { return (int)x; }
-  static long long from(const int &c) { return (long long)c; }
+  static int to(long long x) { return x == 6 ? INT_MAX : x == 7 ? -1 : x == 8 ? INT_MIN : (int)x; }
+  static long long from(const int &c) { return c == INT_MAX ? 6 : c == -1 ? 7 : c == INT_MIN ? 8 : (long long)c; }
 };
 template <>
 struct Enc<double>
 {
-  // 9 <-> -0.0: equal to T() = +0.0 under ==, but not the same element
-  static double to(long long x) { return x == 9 ? -0.0 : (double)x; }
-  static long long from(const double &d) { return (d == 0.0 && std::signbit(d)) ? 9 : (long long)d; }
+  // compared by bit pattern: 9 = -0.0 (equal to T() under ==), 8 = a NaN with payload, 7 = the smallest subnormal,
+  // 6 = the most negative finite value, 5 = 0.1 (not dyadic)
+  static uint64_t bits(long long x)
+  {
+    switch (x) {
+    case 9: return 0x8000000000000000ull;
+    case 8: return 0x7ff8000000000abcull;
+    case 7: return 0x0000000000000001ull;
+    case 6: return 0xffefffffffffffffull;
+    case 5: return 0x3fb999999999999aull;
+    default: {
+      double d = (double)x;
+      uint64_t b;
+      memcpy(&b, &d, 8);
+      return b;
+    }
+    }
+  }
+  static double to(long long x)
+  {
+    uint64_t b = bits(x);
+    double d;
+    memcpy(&d, &b, 8);
+    return d;
+  }
+  static long long from(const double &d)
+  {
+    uint64_t b;
+    memcpy(&b, &d, 8);
+    for (long long k = 0; k < 10; ++k)
+      if (bits(k) == b)
+        return k;
+    return -1000;
+  }
+};
+template <>
+struct Enc<B3>
+{
+  static B3 to(long long x)
+  {
+    B3 s = {{(unsigned char)x, (unsigned char)(x * 3), (unsigned char)(x * 5)}};
+    return s;
+  }
+  static long long from(const B3 &s) { return (s.b[1] == (unsigned char)(s.b[0] * 3) && s.b[2] == (unsigned char)(s.b[0] * 5)) ? s.b[0] : -1000 - s.b[0]; }
+};
+template <>
+struct Enc<A32>
+{
+  static A32 to(long long x)
+  {
+    A32 s;
+    for (int k = 0; k < 8; ++k)
+      s.w[k] = (int)x * (k + 1);
+    return s;
+  }
+  static long long from(const A32 &s)
+  {
+    if ((uintptr_t)&s % 32 != 0)
+      return -2000; // the element itself is not where its type must be
+    for (int k = 0; k < 8; ++k)
+      if (s.w[k] != s.w[0] * (k + 1))
+        return -1000 - s.w[0];
+    return s.w[0];
+  }
 };
 template <>
 struct Enc<S12>
@@ -449,6 +698,8 @@ struct Life
 {
   static void begin() {}
   static void report(Json &) {}
+  static void arm(long) {}
+  static void disarm() {}
 };
 template <>
 struct Life<Tracked>
@@ -459,6 +710,8 @@ struct Life<Tracked>
     return v;
   }
   static void begin() { convAtBegin() = Tracked::c().intCtor + Tracked::c().listCtor; }
+  static void arm(long k) { Tracked::fuse() = k; }
+  static void disarm() { Tracked::fuse() = 0; }
   static void report(Json &o)
   {
     Json l = Json::object();
@@ -501,6 +754,26 @@ struct VecWorld : IWorld
     T val               = Enc<T>::to(arg.has("x") ? arg["x"].num() : 0);
     Life<T>::begin();
     o.set("ret", "void");
+    if (arg.has("fuse"))
+      Life<T>::arm((long)arg["fuse"].num());
+    try {
+      performCall(a, arg, o, t, u, val);
+    } catch (const Tracked::Blown &) {
+      o.set("ret", "threw");
+    }
+    Life<T>::disarm();
+  }
+
+  template <typename AL>
+  static T *allocateHow(AL &al, const std::string &how, size_t n)
+  {
+    if (how == "hint")
+      return al.allocate(n, (const int *)nullptr);
+    return al.allocate(n);
+  }
+
+  void performCall(const std::string &a, const Json &arg, Json &o, AlignedVector<T> &t, AlignedVector<T> &u, T &val)
+  {
     if (a == "PushBack") {
       t.push_back(val);
     } else if (a == "PushBackRv") {
@@ -524,6 +797,16 @@ struct VecWorld : IWorld
     } else if (a == "CopyCtor") {
       AlignedVector<T> tmp(u);
       t.swap(tmp);
+    } else if (a == "MoveAssign") {
+      t = std::move(u);
+      u.clear(); // a moved-from vector is valid but unspecified: clear() gives it a specified value again
+    } else if (a == "SelfAssign") {
+      AlignedVector<T> &alias = t;
+      t                       = alias;
+    } else if (a == "InsertOwn") {
+      t.insert(t.begin(), t.back());
+    } else if (a == "ResizeValOwn") {
+      t.resize((size_t)arg["n"].num(), t[0]);
     } else if (a == "Swap") {
       v[0].swap(v[1]);
     } else if (a == "Clear") {
@@ -533,7 +816,14 @@ struct VecWorld : IWorld
     } else if (a == "InsertMid") {
       t.insert(t.begin() + (ptrdiff_t)(t.size() / 2), val);
     } else if (a == "Allocate") {
-      aligned_allocator<T> al;
+      // "rebind": the allocator a node-based container would derive from this one
+      // how = "plain": aligned_allocator<T>; "hint": its allocate(n, hint) overload; "rebind": the allocator a
+      // node-based container derives from another one (rebind<T>::other, converting constructor)
+      const std::string how = arg.has("how") ? arg["how"].str() : "plain";
+      aligned_allocator<T> plainAl;
+      aligned_allocator<long> srcAl;
+      typename aligned_allocator<long>::template rebind<T>::other rebAl(srcAl);
+      auto &al = how == "rebind" ? rebAl : plainAl;
       const std::string &rel = arg["rel"].str();
       long long d            = arg["d"].num();
       size_t n;
@@ -546,7 +836,7 @@ struct VecWorld : IWorld
       o.set("n", toLimbs((uint64_t)n));
       bool lenErr = false;
       try {
-        T *p = al.allocate(n);
+        T *p = allocateHow(al, how, n);
         if (!p) {
           o.set("ret", "null");
         } else {
@@ -619,6 +909,10 @@ struct World
       w = new VecWorld<S64>();
     else if (v == "f8")
       w = new VecWorld<double>();
+    else if (v == "b3")
+      w = new VecWorld<B3>();
+    else if (v == "a32")
+      w = new VecWorld<A32>();
     else if (v == "nest")
       w = new VecWorld<Nest>();
     else if (v == "vany")
